@@ -111,7 +111,13 @@ TwinBad == /\ "twin" \in DOMAIN T
            /\ Fin.raised \notin {"budget", "timeout", "RecursionError"}
            /\ T.twin.raised \notin {"budget", "timeout", "RecursionError"}
            /\ (T.twin.stack # Fin.stack \/ T.twin.out # Fin.out \/ T.twin.raised # Fin.raised)
-WithTwin(a) == IF TwinBad /\ SubSeq(a, 1, 9) # "violation" THEN "violation:eager-and-lazy-source-differ" ELSE a
+(* the program's inputs are values like any other: no run changes them (logged: whether the input list the
+   interpreter holds at the end still equals the one it was given) *)
+InputsChanged == "inchg" \in DOMAIN Fin /\ Fin.inchg
+IsViol(a) == Len(a) >= 9 /\ SubSeq(a, 1, 9) = "violation"
+WithTwin(a) == IF IsViol(a) THEN a
+               ELSE IF InputsChanged THEN "violation:program-inputs-changed"
+               ELSE IF TwinBad THEN "violation:eager-and-lazy-source-differ" ELSE a
 
 Emit(a0, b) == LET a == WithTwin(a0)
                IN PrintT(<<"V", tid, a>>) /\ PrintT(<<"W", tid, b>>) /\ PrintT(<<"X", tid, OnlineVerdict(a)>>)
